@@ -13,7 +13,7 @@ theorem b_of_parity' {b : Bool} {n : Nat} (h : n % 2 = (b.toNat + 0) % 2) :
 
 theorem inv_tog {cfg : Cfg} {s : St} {ph : Nat → Nat → Ph} {t c k : Nat}
     (inv : Inv cfg s ph) (ht : t ≤ cfg.pos) (hpc : s.pc t = .wrote c k) :
-    ∃ ph', Inv cfg (toggleStep cfg s t c k) ph' := by
+    ∃ ph', Inv cfg (toggleStep cfg s t c k) ph' ∧ Mono ph ph' := by
   have hT := inv.thr t ht
   rw [hpc] at hT
   obtain ⟨hc, h2, hheld, hslot, h5⟩ := hT
@@ -39,7 +39,7 @@ theorem inv_tog {cfg : Cfg} {s : St} {ph : Nat → Nat → Ph} {t c k : Nat}
     · rw [upd_ne _ _ _ _ e]
   by_cases hfirst : (s.state (c + 1) (k / 2) + 1) % 2 = 1
   · -- first arrival
-    refine ⟨upd2 ph c k .arrived, ?_⟩
+    refine ⟨upd2 ph c k .arrived, ?_, mono_arrive ph c k⟩
     unfold toggleStep
     simp only [hfirst, if_true]
     have hflp : t = cfg.pos → fl cfg (if t < cfg.pos then PC.done else PC.top (c + 1) (k / 2) none) = c + 1 := by
@@ -126,7 +126,15 @@ theorem inv_tog {cfg : Cfg} {s : St} {ph : Nat → Nat → Ph} {t c k : Nat}
     · show s.result = _
       rw [inv.res, upd2_ne _ _ _ _ _ _ (by omega)]
   · -- second arrival
-    refine ⟨upd2 (upd2 ph c k .arrived) (c + 1) (k / 2) (.held t), ?_⟩
+    refine ⟨upd2 (upd2 ph c k .arrived) (c + 1) (k / 2) (.held t), ?_, ?hm⟩
+    case hm =>
+      refine mono_trans (mono_arrive ph c k) (mono_hold _ _ _ _ ?_)
+      rw [upd2_ne _ _ _ _ _ _ (by omega)]
+      apply hN.2.2.2.mpr
+      rintro ⟨q1, q2⟩
+      by_cases hk : k % 2 = 0
+      · rw [show 2 * (k / 2) = k by omega, aMe0] at q1; cases q1
+      · rw [show 2 * (k / 2) + 1 = k by omega, aMe0] at q2; cases q2
     unfold toggleStep
     simp only [hfirst, if_false]
     have hflp : t = cfg.pos → fl cfg (PC.hash (c + 1) (k / 2)) = c + 1 := fun _ => rfl
@@ -247,7 +255,7 @@ theorem inv_tog {cfg : Cfg} {s : St} {ph : Nat → Nat → Ph} {t c k : Nat}
 
 theorem inv_zrNone {cfg : Cfg} {s : St} {ph : Nat → Nat → Ph} {t c k : Nat} (hv : cfg.vals ≠ [])
     (inv : Inv cfg s ph) (ht : t ≤ cfg.pos) (hpc : s.pc t = .zr c k none) :
-    ∃ ph', Inv cfg (toggleStep cfg s t c k) ph' := by
+    ∃ ph', Inv cfg (toggleStep cfg s t c k) ph' ∧ Mono ph ph' := by
   have hT := inv.thr t ht
   rw [hpc] at hT
   obtain ⟨h1, hc, hkp, hk, hzr, _⟩ := hT
@@ -275,7 +283,7 @@ theorem inv_zrNone {cfg : Cfg} {s : St} {ph : Nat → Nat → Ph} {t c k : Nat} 
     · subst e'; exfalso; omega
     · constructor <;> intro <;> omega
   by_cases hfirst : (s.state (c + 1) (k / 2) + 1) % 2 = 1
-  · refine ⟨ph, ?_⟩
+  · refine ⟨ph, ?_, mono_refl ph⟩
     unfold toggleStep
     simp only [hfirst, if_true, Nat.lt_irrefl, if_false]
     have hb := (b_of_parity' n1).1 (by omega)
@@ -317,7 +325,7 @@ theorem inv_zrNone {cfg : Cfg} {s : St} {ph : Nat → Nat → Ph} {t c k : Nat} 
       · left; exact ⟨e, h⟩
     · exact inv.leaf
     · exact inv.res
-  · refine ⟨upd2 ph (c + 1) (k / 2) (.held cfg.pos), ?_⟩
+  · refine ⟨upd2 ph (c + 1) (k / 2) (.held cfg.pos), ?_, mono_hold _ _ _ _ hpend⟩
     unfold toggleStep
     simp only [hfirst, if_false]
     have hb := (b_of_parity' n1).2 (by omega)
